@@ -116,7 +116,7 @@ func k1(args []string) {
 }
 
 func countKinds(t *rt.CTerm, m map[string]int) {
-	names := []string{"normal", "brk", "cont", "ret", "retv", "bind", "delay", "combine", "loop", "ite"}
+	names := []string{"normal", "brk", "cont", "ret", "retv", "bind", "delay", "combine", "loop", "ite", "twice"}
 	m[names[t.K]]++
 	if t.K == rt.KLoop {
 		switch {
